@@ -17,7 +17,13 @@ def main():
     opts = json.loads(sys.argv[3]) if len(sys.argv) > 3 else {}
     out = {}
     try:
-        if kind == "silixa":
+        if opts.get("dask_chunk_size"):
+            import dask
+            dask.config.set({"array.chunk-size": opts["dask_chunk_size"]})
+        if kind == "apsensing":
+            from dtscalibration import read_apsensing_files
+            ds = read_apsensing_files(directory=directory, silent=True, load_in_memory=opts.get("load_in_memory", True), timezone_netcdf=opts.get("timezone_netcdf", "UTC"))
+        elif kind == "silixa":
             from dtscalibration import read_silixa_files
             ds = read_silixa_files(directory=directory, silent=True, load_in_memory=opts.get("load_in_memory", True), timezone_netcdf=opts.get("timezone_netcdf", "UTC"))
         elif kind == "sensortran":
@@ -33,10 +39,12 @@ def main():
         else:
             raise ValueError(kind)
         for k in ("time", "timestart", "timeend"):
-            out[k] = iso(ds[k].values)
+            if k in ds.coords or k in ds:
+                out[k] = iso(ds[k].values)
         for k in ("st", "ast", "rst", "rast", "tmp"):
             if k in ds:
                 out[k] = np.asarray(ds[k].values).tolist()
+        out["lazy"] = bool(hasattr(ds["st"].data, "dask"))
         out["x"] = ds.x.values.tolist()
         if "probe1Temperature" in ds:
             out["probe1"] = np.asarray(ds.probe1Temperature.values).tolist()
